@@ -743,6 +743,10 @@ class Generator:
                 out[n] = self.rng.choice(space)
         return out
 
+    def _kn(self, op, names):
+        op["knob_names"] = list(names)
+        op["knobs"] = self._knobs(names)
+
     def frames(self, pred=None):
         out = [m for m in self.members.values() if m.kind == "frame" and m.cols]
         if pred:
@@ -971,7 +975,7 @@ class Generator:
             return None
         c = self.rng.choice(cands)
         op = {"op": "set_index", "src": m.id, "column": c, "drop": self.rng.random() < 0.8}
-        op["knobs"] = self._knobs(["shuffle_method", "sort_npartitions", "upsample", "max_branch"])
+        self._kn(op, ["shuffle_method", "sort_npartitions", "upsample", "max_branch"])
         return self.try_add(op, "open", "defined", self.next_id, "set")
 
     def g_sort_values(self):
@@ -983,7 +987,7 @@ class Generator:
             return None
         by = self.rng.sample(cands, self.rng.randint(1, min(2, len(cands))))
         op = {"op": "sort_values", "src": m.id, "by": by, "ascending": self.rng.random() < 0.7}
-        op["knobs"] = self._knobs(["shuffle_method", "sort_npartitions", "upsample"])
+        self._kn(op, ["shuffle_method", "sort_npartitions", "upsample"])
         return self.try_add(op, "open", m.labels, self.next_id, m.index_kind)
 
     def g_repartition(self):
@@ -1011,7 +1015,7 @@ class Generator:
         if self.rng.random() < 0.15:
             op.pop("on")
             op["on_index"] = True
-        op["knobs"] = self._knobs(["shuffle_method", "max_branch"])
+        self._kn(op, ["shuffle_method", "max_branch"])
         return self.try_add(op, "open", labels, self.next_id, m.index_kind)
 
     def g_dedup(self):
@@ -1022,19 +1026,21 @@ class Generator:
             op = {"op": "drop_duplicates", "src": m.id}
             if self.rng.random() < 0.7:
                 op["subset"] = self.rng.sample(sorted(m.cols), self.rng.randint(1, min(2, len(m.cols))))
-            op["knobs"] = self._knobs(["split_out", "split_every", "shuffle_method"])
+            self._kn(op, ["split_out", "split_every", "shuffle_method"])
             return self.try_add(op, "open", "open", self.next_id, None)
         s = self.pick(self.series())
         if not s:
             return None
-        op = {"op": "unique", "src": s.id, "knobs": self._knobs(["split_out", "split_every"])}
+        op = {"op": "unique", "src": s.id}
+        self._kn(op, ["split_out", "split_every"])
         return self.try_add(op, "open", "open", self.next_id, None)
 
     def g_value_counts(self):
         s = self.pick(self.series())
         if not s:
             return None
-        op = {"op": "value_counts", "src": s.id, "knobs": self._knobs(["split_out", "split_every"])}
+        op = {"op": "value_counts", "src": s.id}
+        self._kn(op, ["split_out", "split_every"])
         return self.try_add(op, "open", "defined", self.next_id, None)
 
     def g_merge(self):
@@ -1062,7 +1068,7 @@ class Generator:
                 return None
         else:
             return None
-        op["knobs"] = self._knobs(["broadcast", "shuffle_method", "npartitions_hint"])
+        self._kn(op, ["broadcast", "shuffle_method", "npartitions_hint"])
         return self.try_add(op, "open", labels, self.next_id, None)
 
     def g_concat(self):
@@ -1177,7 +1183,7 @@ class Generator:
                 return None
             if fn in ("min", "max") and kind not in ("int", "float", "dt"):
                 return None
-        op["knobs"] = self._knobs(["split_every"])
+        self._kn(op, ["split_every"])
         return self.try_add(op, "defined", "defined", self.next_id, None)
 
     def g_groupby(self):
@@ -1210,7 +1216,7 @@ class Generator:
             op["sort"] = False
         if self.rng.random() < 0.15:
             op["dropna"] = False
-        op["knobs"] = self._knobs(["split_out", "split_every", "shuffle_method"])
+        self._kn(op, ["split_out", "split_every", "shuffle_method"])
         return self.try_add(op, "open", "defined", self.next_id, None)
 
     def g_groupby_udf(self):
@@ -1236,7 +1242,7 @@ class Generator:
         else:
             op = {"op": "groupby_apply", "src": m.id, "by": [by], "udf": "demean", "kwargs": {"col": v}}
             labels = m.labels
-        op["knobs"] = self._knobs(["shuffle_method"])
+        self._kn(op, ["shuffle_method"])
         return self.try_add(op, "open", labels, self.next_id, None)
 
     def g_cut(self):
